@@ -1020,7 +1020,7 @@ SVectorBase<R>& SVectorBase<R>::operator=(const SSVectorBase<S>& sv)
 
    Nonzero<R>* e = m_elem;
 
-   for(int i = 0; i < nnz; ++i)
+   for(int i = 0; i < sv.size(); ++i)
    {
       idx = sv.index(i);
 
